@@ -47,6 +47,21 @@ type Family struct {
 	Atoms      map[string]Atom   // canonical expression -> meaning
 	Needs      map[string]*Node  // canonical expression -> what must hold for it to be evaluated at all
 	Targets    []Target
+
+	// control-flow kernels over opaque values (effects.go)
+	Effectful   bool                 // the functions run in the context monad `Monad`
+	Monad       string               // e.g. "Go.M Ctx PV"
+	TypeVars    []string             // implicit type parameters of every definition
+	GoTypes     map[string]TypeSpec  // Go type (as written) -> Lean type of its values
+	ValueParams map[string]string    // Go type of a parameter -> parameter of the definition that stands for it
+	Funcs       []FuncAtom           // calls that stand for uninterpreted functions
+	Slices      map[string]SliceSpec // canonical expression of a slice that is ranged over
+	SideCalls   []string             // canonical callees of statements that are dropped (no effect on what is returned)
+	NilPanic    string               // parameter that stands for the panic value of a nil dereference
+	// MutablePaths: canonical prefixes of objects whose fields / elements may be assigned to (the request of the
+	// context); such assignments, and `range` loops that consist of nothing else, are dropped like SideCalls: they
+	// change what the opaque calls see through the context, not what the function returns
+	MutablePaths []string
 }
 
 // Def is a translated function.
@@ -58,6 +73,10 @@ type Def struct {
 	Pos     string // file:line of the Go declaration
 	GoName  string
 	Extra   []*Def // further definitions that belong to it (SetCall: the ttl argument)
+
+	Fam     *Family
+	ResType string     // families with effects: Lean type of the result
+	Loops   []*LoopDef // families with effects: the loops of the function, in the order they have to be defined
 }
 
 const maxInline = 8
@@ -76,6 +95,7 @@ type binding struct {
 	lean  string
 	k     Kind
 	u     Unit
+	t     string // Lean type of an opaque value
 	node  *Node
 	alias ast.Expr
 	depth int
@@ -86,6 +106,8 @@ type frame struct {
 	resK Kind
 	resU Unit
 	resT string
+	ret  TypeSpec   // type of the single result
+	res  []TypeSpec // function with effects: the types of its results
 }
 
 type env struct {
@@ -93,6 +115,20 @@ type env struct {
 	names map[string]bool // Lean names bound around this point
 	depth int
 	fr    *frame
+	brk   cont // inside a loop: what `break` / `continue` lead to
+	cnt   cont
+}
+
+// withName reserves a Lean name that is bound around this point without standing for a Go variable
+func (e *env) withName(lean string) *env {
+	names := make(map[string]bool, len(e.names)+1)
+	for k := range e.names {
+		names[k] = true
+	}
+
+	names[lean] = true
+
+	return &env{m: e.m, names: names, depth: e.depth, fr: e.fr, brk: e.brk, cnt: e.cnt}
 }
 
 func (e *env) with(name string, b binding) *env {
@@ -113,10 +149,12 @@ func (e *env) with(name string, b binding) *env {
 		names[b.lean] = true
 	}
 
-	return &env{m: m, names: names, depth: e.depth, fr: e.fr}
+	return &env{m: m, names: names, depth: e.depth, fr: e.fr, brk: e.brk, cnt: e.cnt}
 }
 
-func (e *env) push() *env { return &env{m: e.m, names: e.names, depth: e.depth + 1, fr: e.fr} }
+func (e *env) push() *env {
+	return &env{m: e.m, names: e.names, depth: e.depth + 1, fr: e.fr, brk: e.brk, cnt: e.cnt}
+}
 
 // leave drops what was declared inside a block (depth >= d) and keeps assignments to outer variables
 func (e *env) leave(entry *env) *env {
@@ -134,7 +172,8 @@ func (e *env) leave(entry *env) *env {
 		m[k] = v
 	}
 
-	return &env{m: m, names: e.names, depth: entry.depth, fr: entry.fr}
+	// the Lean names bound inside the block may be used again: what they stood for is out of scope in Go
+	return &env{m: m, names: entry.names, depth: entry.depth, fr: entry.fr, brk: e.brk, cnt: e.cnt}
 }
 
 type tr struct {
@@ -145,6 +184,12 @@ type tr struct {
 	emitted  map[string]*Target
 	stack    []string
 	recvType string
+
+	lastRet    TypeSpec // result type found by the last call of resultType
+	eff        bool
+	defName    string
+	loops      []*LoopDef
+	paramNames map[string]bool
 }
 
 var leanKeywords = strings.Fields("at from fun end open in then else if let have show do match with by def theorem " +
@@ -236,7 +281,11 @@ func TranslateFamily(repo string, fam *Family) ([]*Def, error) {
 	for i := range fam.Targets {
 		tg := &fam.Targets[i]
 		t := &tr{pkg: pkg, fam: fam, atoms: atoms, reserved: map[string]bool{}, emitted: emitted,
-			recvType: tg.Recv}
+			recvType: tg.Recv, eff: fam.Effectful, defName: tg.Lean, paramNames: map[string]bool{}}
+
+		for _, p := range tg.Params {
+			t.paramNames[p] = true
+		}
 
 		for _, k := range leanKeywords {
 			t.reserved[k] = true
@@ -244,6 +293,12 @@ func TranslateFamily(repo string, fam *Family) ([]*Def, error) {
 
 		for _, p := range fam.Params {
 			t.reserved[p.Name] = true
+		}
+
+		if fam.Effectful {
+			for _, k := range []string{"n", "Go", "List", "Option"} {
+				t.reserved[k] = true
+			}
 		}
 
 		for _, o := range fam.Targets {
@@ -328,7 +383,7 @@ func (t *tr) target(tg *Target) (*Def, error) {
 		goName = "(*" + tg.Recv + ")." + tg.Method
 	}
 
-	d := &Def{Target: *tg, Params: params, Pos: t.pkg.Pos(fd.Pos()), GoName: goName}
+	d := &Def{Target: *tg, Params: params, Pos: t.pkg.Pos(fd.Pos()), GoName: goName, Fam: t.fam}
 	en := &env{m: map[string]binding{}, names: map[string]bool{}, fr: &frame{file: file}}
 	en = t.bindReceiver(fd, en)
 
@@ -336,6 +391,17 @@ func (t *tr) target(tg *Target) (*Def, error) {
 		for _, f := range fd.Type.Params.List {
 			canon := t.fam.Objects[Text(f.Type)]
 			for _, id := range f.Names {
+				if vp, ok := t.fam.ValueParams[Text(f.Type)]; ok && canon == "" {
+					ts, known := t.fam.GoTypes[Text(f.Type)]
+					if !known || !t.paramNames[vp] {
+						return nil, t.pkg.errorf(f.Pos(), "table error: parameter %s of type %s", id.Name, Text(f.Type))
+					}
+
+					en = en.with(id.Name, binding{kind: bScalar, lean: vp, k: ts.K, u: ts.U, t: ts.T})
+
+					continue
+				}
+
 				if canon == "" {
 					// not an object the table knows: any use of it fails closed where it is used
 					en = en.with(id.Name, binding{kind: bOpaque, lean: Text(f.Type)})
@@ -352,6 +418,41 @@ func (t *tr) target(tg *Target) (*Def, error) {
 		return t.callSite(d, fd, en)
 	}
 
+	if t.eff {
+		if fd.Type.Results == nil {
+			return nil, t.pkg.errorf(fd.Pos(), "%s returns nothing", goName)
+		}
+
+		var lean []string
+
+		for _, f := range fd.Type.Results.List {
+			ts, ok := t.goType(f.Type, file)
+			if !ok || len(f.Names) > 0 {
+				return nil, t.pkg.errorf(f.Pos(), "result type %s is not supported", Text(f.Type))
+			}
+
+			en.fr.res = append(en.fr.res, ts)
+			lean = append(lean, ts.Lean())
+		}
+
+		d.ResType = t.fam.Monad + " (" + strings.Join(lean, " × ") + ")"
+
+		body, err := t.stmts(fd.Body.List, en.push(), nil, fd.Body.End())
+		if err != nil {
+			return nil, err
+		}
+
+		d.Body = Simplify(body)
+
+		for _, l := range t.loops {
+			l.Nil, l.Cons = Simplify(l.Nil), Simplify(l.Cons)
+		}
+
+		d.Loops = t.loops
+
+		return d, nil
+	}
+
 	k, u, rt, err := t.resultType(fd.Type, file, fd.Pos())
 	if err != nil {
 		return nil, err
@@ -363,6 +464,7 @@ func (t *tr) target(tg *Target) (*Def, error) {
 	}
 
 	en.fr.resK, en.fr.resU, en.fr.resT = k, u, rt
+	en.fr.ret = TypeSpec{K: k, U: u}
 
 	body, err := t.stmts(fd.Body.List, en.push(), nil, fd.Body.End())
 	if err != nil {
@@ -418,12 +520,14 @@ func (t *tr) resultType(ft *ast.FuncType, file *ast.File, pos token.Pos) (Kind, 
 
 	rt := ft.Results.List[0].Type
 
-	k, u, ok := typeOf(rt, file)
+	ts, ok := t.goType(rt, file)
 	if !ok {
 		return 0, 0, "", t.pkg.errorf(pos, "result type %s is not supported (bool, integers, time.Duration)", Text(rt))
 	}
 
-	return k, u, Text(rt), nil
+	t.lastRet = ts
+
+	return ts.K, ts.U, Text(rt), nil
 }
 
 // coerce checks that n can stand where a value of (k, u) is expected
@@ -487,12 +591,24 @@ func (t *tr) stmts(list []ast.Stmt, en *env, k cont, end token.Pos) (*Node, erro
 
 	rest := func(e2 *env) (*Node, error) { return t.stmts(list[1:], e2, k, end) }
 
+	if t.mutation(list[0], en) {
+		return rest(en)
+	}
+
 	switch s := list[0].(type) {
 	case *ast.EmptyStmt:
 		return rest(en)
 	case *ast.ReturnStmt:
+		if en.fr.res != nil {
+			return t.returnEff(s, en)
+		}
+
 		if len(s.Results) != 1 {
 			return nil, t.pkg.errorf(s.Pos(), "return with exactly one value expected")
+		}
+
+		if en.fr.ret.K == KOpq || en.fr.ret.K == KOpt {
+			return t.exprAs(s.Results[0], en.fr.ret, en, "returned value ("+en.fr.resT+")")
 		}
 
 		n, err := t.expr(s.Results[0], en)
@@ -506,6 +622,26 @@ func (t *tr) stmts(list []ast.Stmt, en *env, k cont, end token.Pos) (*Node, erro
 	case *ast.ExprStmt:
 		if t.isLoggerExpr(s.X, en) {
 			return rest(en) // a log statement does not take part in the value
+		}
+
+		if need, ok := t.sideCall(s, en); ok {
+			body, err := rest(en)
+			if err != nil {
+				return nil, err
+			}
+
+			return Need(need, body), nil
+		}
+
+		if call, is, err := t.stmtCall(s.X, en); err != nil {
+			return nil, err
+		} else if is {
+			lhs := make([]ast.Expr, len(call.results()))
+			for i := range lhs {
+				lhs[i] = ast.NewIdent("_")
+			}
+
+			return t.bindResults(lhs, false, call, s.Pos(), en, rest)
 		}
 
 		return nil, t.pkg.errorf(s.Pos(), "statement `%s` is not supported (only log statements may stand alone)",
@@ -563,15 +699,17 @@ func (t *tr) stmts(list []ast.Stmt, en *env, k cont, end token.Pos) (*Node, erro
 			)
 
 			if it.zeroOfType {
-				k0, u0, ok := typeOf(it.typ, e2.fr.file)
+				ts0, ok := t.goType(it.typ, e2.fr.file)
+				if ok {
+					n, ok = zeroOf(ts0)
+				}
+
 				if !ok {
 					return nil, t.pkg.errorf(it.pos, "variable of type %s is not supported", Text(it.typ))
 				}
-
-				if k0 == KBool {
-					n = BLit(false)
-				} else {
-					n = Lit(0, u0)
+			} else if ts0, ok := t.declaredOpaque(it.typ, e2.fr.file); ok {
+				if n, err = t.exprAs(it.val, ts0, e2, it.name); err != nil {
+					return nil, err
 				}
 			} else {
 				n, err = t.expr(it.val, e2)
@@ -616,11 +754,28 @@ func (t *tr) stmts(list []ast.Stmt, en *env, k cont, end token.Pos) (*Node, erro
 		return t.ifStmt(s, en, rest)
 	case *ast.SwitchStmt:
 		return t.switchStmt(s, en, rest)
-	case *ast.ForStmt, *ast.RangeStmt:
-		return nil, t.pkg.errorf(s.Pos(), "loops are not supported yet")
+	case *ast.RangeStmt:
+		return t.rangeStmt(s, en, rest)
+	case *ast.BranchStmt:
+		return t.branchStmt(s, en)
+	case *ast.ForStmt:
+		return nil, t.pkg.errorf(s.Pos(), "loops other than `for … range` are not supported")
+	case *ast.DeferStmt, *ast.GoStmt:
+		return nil, t.pkg.errorf(s.Pos(), "defer / go statements are not supported")
 	}
 
 	return nil, t.pkg.errorf(list[0].Pos(), "statement of kind %T is not supported", list[0])
+}
+
+// declaredOpaque: the declared type (may be absent) is one of the opaque / nil-able types of the family
+func (t *tr) declaredOpaque(typ ast.Expr, file *ast.File) (TypeSpec, bool) {
+	if typ == nil {
+		return TypeSpec{}, false
+	}
+
+	ts, ok := t.goType(typ, file)
+
+	return ts, ok && (ts.K == KOpt || ts.K == KOpq)
 }
 
 // retag gives an untyped constant the unit of its declared type
@@ -652,7 +807,7 @@ func (t *tr) bindLet(name string, n *Node, en *env, define bool, k cont) (*Node,
 		n = retag(n, UPlain) // `x := 10` is an int
 	}
 
-	b := binding{kind: bScalar, k: n.K, u: n.U, depth: en.depth}
+	b := binding{kind: bScalar, k: n.K, u: n.U, t: n.T, depth: en.depth}
 
 	if old, ok := en.m[name]; ok && !define {
 		b.lean, b.depth = old.lean, old.depth
@@ -669,8 +824,20 @@ func (t *tr) bindLet(name string, n *Node, en *env, define bool, k cont) (*Node,
 }
 
 func (t *tr) assign(s *ast.AssignStmt, en *env, rest cont) (*Node, error) {
+	if len(s.Rhs) == 1 && (s.Tok == token.DEFINE || s.Tok == token.ASSIGN) {
+		call, is, err := t.stmtCall(s.Rhs[0], en)
+		if err != nil {
+			return nil, err
+		}
+
+		if is {
+			return t.bindResults(s.Lhs, s.Tok == token.DEFINE, call, s.Pos(), en, rest)
+		}
+	}
+
 	if len(s.Lhs) != 1 || len(s.Rhs) != 1 {
-		return nil, t.pkg.errorf(s.Pos(), "assignment of several values is not supported")
+		return nil, t.pkg.errorf(s.Pos(), "assignment of several values is not supported (except the results of a call "+
+			"the table knows)")
 	}
 
 	id, ok := s.Lhs[0].(*ast.Ident)
@@ -702,7 +869,17 @@ func (t *tr) assign(s *ast.AssignStmt, en *env, rest cont) (*Node, error) {
 		return rest(en.with(id.Name, binding{kind: bOpaque, lean: "logger", depth: en.depth}))
 	}
 
-	n, err := t.expr(rhs, en)
+	var (
+		n   *Node
+		err error
+	)
+
+	if isNil(unparen(rhs), en) && !define && bound && old.k == KOpt {
+		n = &Node{Op: "onone", K: KOpt, T: old.t}
+	} else {
+		n, err = t.expr(rhs, en)
+	}
+
 	if err != nil {
 		// not a value: a name for (a part of) an object the atoms speak about?
 		if c, ok := t.canon(rhs, en); define && ok && isPath(c) {
@@ -718,11 +895,9 @@ func (t *tr) assign(s *ast.AssignStmt, en *env, rest cont) (*Node, error) {
 	}
 
 	if !define && id.Name != "_" {
-		if n, err = t.coerce(n, old.k, old.u, s.Pos(), "value assigned to "+id.Name); err != nil {
+		if n, err = t.coerceT(n, TypeSpec{K: old.k, U: old.u, T: old.t}, s.Pos(), "value assigned to "+id.Name); err != nil {
 			return nil, err
 		}
-
-		n = retag(n, old.u)
 	}
 
 	if !define && id.Name != "_" && old.kind != bScalar {
@@ -783,8 +958,16 @@ func (t *tr) ifStmt(s *ast.IfStmt, en *env, rest cont) (*Node, error) {
 }
 
 func (t *tr) switchStmt(s *ast.SwitchStmt, en *env, rest cont) (*Node, error) {
-	if s.Tag != nil || s.Init != nil {
-		return nil, t.pkg.errorf(s.Pos(), "only `switch { case cond: ... }` is supported")
+	if s.Init != nil {
+		return nil, t.pkg.errorf(s.Pos(), "`switch` with an init statement is not supported")
+	}
+
+	if s.Tag != nil {
+		// `switch x { case a: … }`: x is a side-effect free expression over the objects, compared with each value
+		if c, ok := t.canon(s.Tag, en); !ok || !isPath(c) {
+			return nil, t.pkg.errorf(s.Pos(), "`switch %s`: only fields of the known objects can be switched on",
+				Text(s.Tag))
+		}
 	}
 
 	// rewrite into an if / else chain
@@ -798,7 +981,7 @@ func (t *tr) switchStmt(s *ast.SwitchStmt, en *env, rest cont) (*Node, error) {
 	for _, c := range s.Body.List {
 		cc := c.(*ast.CaseClause) //nolint:forcetypeassert
 		for _, st := range cc.Body {
-			if b, ok := st.(*ast.BranchStmt); ok {
+			if b, ok := st.(*ast.BranchStmt); ok && b.Tok == token.FALLTHROUGH {
 				return nil, t.pkg.errorf(b.Pos(), "%s inside switch is not supported", b.Tok)
 			}
 		}
@@ -811,9 +994,17 @@ func (t *tr) switchStmt(s *ast.SwitchStmt, en *env, rest cont) (*Node, error) {
 	}
 
 	for _, cc := range clauses {
-		cond := cc.List[0]
+		val := func(v ast.Expr) ast.Expr {
+			if s.Tag == nil {
+				return v
+			}
+
+			return &ast.BinaryExpr{X: s.Tag, Op: token.EQL, Y: v, OpPos: v.Pos()}
+		}
+
+		cond := val(cc.List[0])
 		for _, o := range cc.List[1:] {
-			cond = &ast.BinaryExpr{X: cond, Op: token.LOR, Y: o, OpPos: o.Pos()}
+			cond = &ast.BinaryExpr{X: cond, Op: token.LOR, Y: val(o), OpPos: o.Pos()}
 		}
 
 		is := &ast.IfStmt{If: cc.Pos(), Cond: cond, Body: &ast.BlockStmt{Lbrace: cc.Colon, List: cc.Body, Rbrace: cc.End()}}
@@ -839,7 +1030,21 @@ func (t *tr) switchStmt(s *ast.SwitchStmt, en *env, rest cont) (*Node, error) {
 		return rest(en)
 	}
 
-	return t.stmts([]ast.Stmt{chain}, en, rest, s.End())
+	// `break` inside a switch leaves the switch, `continue` still belongs to the loop around it
+	inner := en.push()
+	inner.brk = func(e2 *env) (*Node, error) {
+		e3 := e2.leave(en)
+		e3.brk = en.brk
+
+		return rest(e3)
+	}
+
+	return t.stmts([]ast.Stmt{chain}, inner, func(e2 *env) (*Node, error) {
+		e3 := e2.leave(en)
+		e3.brk = en.brk
+
+		return rest(e3)
+	}, s.End())
 }
 
 // ---------------------------------------------------------------------------------------------------------------
@@ -876,6 +1081,10 @@ func (t *tr) canon(e ast.Expr, en *env) (ast.Expr, bool) {
 		if b, ok := en.m[x.Name]; ok {
 			if b.kind == bAlias {
 				return b.alias, true
+			}
+
+			if b.kind == bOpaque && b.lean == "logger" {
+				return ast.NewIdent("logger"), true
 			}
 
 			return nil, false
@@ -916,14 +1125,28 @@ func (t *tr) canon(e ast.Expr, en *env) (ast.Expr, bool) {
 		}
 
 		return &ast.UnaryExpr{Op: x.Op, X: c}, true
+	case *ast.BinaryExpr:
+		a, ok := t.canon(x.X, en)
+		b, ok2 := t.canon(x.Y, en)
+
+		if !ok || !ok2 {
+			return nil, false
+		}
+
+		return &ast.BinaryExpr{X: a, Op: x.Op, Y: b}, true
 	case *ast.CompositeLit:
-		if len(x.Elts) != 0 || x.Type == nil {
+		if x.Type == nil {
 			return nil, false
 		}
 
 		c, ok := t.canon(x.Type, en)
 		if !ok {
 			return nil, false
+		}
+
+		if len(x.Elts) != 0 {
+			// what a value is built from is not looked at: `T{…}`
+			return &ast.CompositeLit{Type: c, Elts: []ast.Expr{ast.NewIdent("…")}}, true
 		}
 
 		return &ast.CompositeLit{Type: c}, true
@@ -1079,7 +1302,10 @@ func (t *tr) ident(x *ast.Ident, en *env) (*Node, error) {
 	if b, ok := en.m[x.Name]; ok {
 		switch b.kind {
 		case bScalar:
-			return Var(b.lean, b.k, b.u), nil
+			v := Var(b.lean, b.k, b.u)
+			v.T = b.t
+
+			return v, nil
 		case bConst:
 			return b.node, nil
 		case bAlias:
@@ -1161,6 +1387,21 @@ func (t *tr) binary(x *ast.BinaryExpr, en *env) (*Node, error) {
 		if other != nil {
 			a, c, ok := t.atomOf(other, en)
 			if !ok || a.Present == nil {
+				// a local value that may be nil
+				v, err := t.expr(other, en)
+				if err == nil && v.K == KOpt {
+					some := &Node{Op: "osome", K: KBool, Args: []*Node{v}}
+					if x.Op == token.EQL {
+						return Not(some), nil
+					}
+
+					return some, nil
+				}
+
+				if err != nil && t.eff {
+					return nil, err
+				}
+
 				return nil, t.pkg.errorf(x.Pos(), "`%s`: the translation does not know what is compared with nil here",
 					Text(x))
 			}
@@ -1348,6 +1589,17 @@ func (t *tr) call(x *ast.CallExpr, en *env) (*Node, error) {
 		return nil, t.pkg.errorf(x.Pos(), "variadic call is not supported")
 	}
 
+	if n, is, err := t.funcCall(x, en); err != nil {
+		return nil, err
+	} else if is {
+		if n.Eff || n.K == KTup {
+			return nil, t.pkg.errorf(x.Pos(), "`%s` changes the context or has several results: it must stand alone on "+
+				"the right-hand side of an assignment, as a statement or as the operand of return", Text(x))
+		}
+
+		return n, nil
+	}
+
 	switch f := fun.(type) {
 	case *ast.Ident:
 		if _, local := en.m[f.Name]; local {
@@ -1355,6 +1607,14 @@ func (t *tr) call(x *ast.CallExpr, en *env) (*Node, error) {
 		}
 
 		switch f.Name {
+		case "len":
+			if len(x.Args) == 1 {
+				if c, ok := t.canon(x.Args[0], en); ok {
+					if _, isSlice := t.fam.Slices[Text(c)]; isSlice {
+						return &Node{Op: "slen", K: KInt, U: UPlain}, nil
+					}
+				}
+			}
 		case "min", "max":
 			if _, _, _, _, shadow := t.pkg.PkgValue(f.Name); !shadow {
 				if _, _, err := t.pkg.Func("", f.Name); err != nil {
@@ -1471,7 +1731,7 @@ func (t *tr) ifThenElse(exec bool, x *ast.CallExpr, en *env) (*Node, error) {
 		}
 
 		inner := &env{m: en.m, names: en.names, depth: en.depth + 1,
-			fr: &frame{file: en.fr.file, resK: k, resU: u, resT: rt}}
+			fr: &frame{file: en.fr.file, resK: k, resU: u, resT: rt, ret: t.lastRet}}
 
 		return t.stmts(fl.Body.List, inner, nil, fl.Body.End())
 	}
@@ -1579,7 +1839,7 @@ func (t *tr) inline(fd *ast.FuncDecl, file *ast.File, x *ast.CallExpr, en *env, 
 	}
 
 	inner := &env{m: map[string]binding{}, names: en.names, depth: en.depth + 1,
-		fr: &frame{file: file, resK: k, resU: u, resT: rt}}
+		fr: &frame{file: file, resK: k, resU: u, resT: rt, ret: t.lastRet}}
 	if method {
 		inner = t.bindReceiver(fd, inner)
 	}
@@ -1614,17 +1874,11 @@ func (t *tr) inline(fd *ast.FuncDecl, file *ast.File, x *ast.CallExpr, en *env, 
 				arg := x.Args[i]
 				i++
 
-				if pk, pu, scalar := typeOf(f.Type, file); scalar {
-					n, err := t.expr(arg, en)
+				if pts, scalar := t.goType(f.Type, file); scalar {
+					n, err := t.exprAs(arg, pts, en, "argument "+id.Name+" of "+name)
 					if err != nil {
 						return nil, err
 					}
-
-					if n, err = t.coerce(n, pk, pu, arg.Pos(), "argument "+id.Name+" of "+name); err != nil {
-						return nil, err
-					}
-
-					n = retag(n, pu)
 
 					if id.Name == "_" {
 						need = And(need, Defined(n))
@@ -1640,7 +1894,7 @@ func (t *tr) inline(fd *ast.FuncDecl, file *ast.File, x *ast.CallExpr, en *env, 
 
 					lean := t.fresh(id.Name, inner)
 					lets = append(lets, pend{lean, n})
-					inner = inner.with(id.Name, binding{kind: bScalar, lean: lean, k: n.K, u: n.U, depth: inner.depth})
+					inner = inner.with(id.Name, binding{kind: bScalar, lean: lean, k: n.K, u: n.U, t: n.T, depth: inner.depth})
 
 					continue
 				}
